@@ -1,17 +1,22 @@
 """Implementation driver for C20: the real exception_to_python / TaskiqResult validation on crafted payloads,
 with recording trap objects registered in sys.modules.
 
-A case is {"env": ENV, "entry": "direct"|"validate"|"json", "raw": RAW} (formats: harness/props/C20.py).
+A case is {"env": ENV, "entry": "direct"|"validate"|"json", "raw": RAW} (formats: harness/props/C20.py), optionally with
+"lazy": [[package, segment] ...]: sub-modules `package.segment` that exist on disk and must NOT be loaded (nor bound as an
+attribute of the loaded package) while the payload is loaded - the driver removes them for the duration of the case if some
+earlier work of this process loaded them, and says so ("lazy_pre").
 Observation: {"res": canonical outcome, "eff": ordered list of observed effects, "newmods": new sys.modules keys,
               "nested": [[path, res] ...]  (every nested sub-payload loaded on its own, through the same entry)}.
 
 Nothing of taskiq is re-implemented here: the driver builds Python objects, calls the entry point inside an
 observation window and canonicalises what came out."""
+import ast
 import builtins
 import gc
 import importlib
 import json
 import os
+import pkgutil
 import sys
 import types
 
@@ -24,6 +29,7 @@ from taskiq.serialization import ExceptionRepr, _UnpickleableExceptionWrapper, e
 LOG = []            # (kind, id, number of classes synthesised so far)
 BASE_SUB = [set()]  # ids of Exception.__subclasses__() at window start
 UNLOADED = ["lg_unloaded_0", "lg_unloaded_1", "lg_unloaded_pkg", "lg_unloaded_pkg.inner", "colorsys"]
+LOADED_PKG = "lg_loaded_pkg"
 REAL_EVAL, REAL_EXEC = builtins.eval, builtins.exec
 
 
@@ -385,8 +391,7 @@ def window(env, entry, raw, argtab=()):
         trap_log = list(LOG)
         synth = new_subclasses()
         newmods = sorted(set(sys.modules) - before)
-        for m in newmods:
-            sys.modules.pop(m, None)
+        forget(newmods)
         for m in UNLOADED:
             sys.modules.pop(m, None)
     finally:
@@ -422,6 +427,49 @@ def window(env, entry, raw, argtab=()):
     return res, eff, newmods
 
 
+def forget(names):
+    """undo imports: drop the modules from sys.modules and unbind them from their (still loaded) parent packages, so
+    that the next load starts from the same state"""
+    gone = {m: sys.modules.pop(m) for m in names if m in sys.modules}
+    for m, o in gone.items():
+        parent, _, child = m.rpartition(".")
+        p = sys.modules.get(parent)
+        if isinstance(p, types.ModuleType) and vars(p).get(child) is o:
+            delattr(p, child)
+    return gone
+
+
+class Unloaded:
+    """for the duration of a case the sub-modules `package.segment` are not loaded and `segment` is not bound on the
+    package (remove and restore; normally there is nothing to remove: this process never imports them itself)"""
+
+    def __init__(self, targets):
+        self.targets = [(p, s_) for p, s_ in targets]
+        self.mods, self.attrs, self.pre, self.problems = {}, [], [], []
+
+    def __enter__(self):
+        for pkg, seg in self.targets:
+            full = pkg + "." + seg
+            for k in sorted(k for k in sys.modules if k == full or k.startswith(full + ".")):
+                self.mods[k] = sys.modules.pop(k)
+            if full in self.mods:
+                self.pre.append(full)
+            p = sys.modules.get(pkg)
+            if isinstance(p, types.ModuleType) and seg in vars(p):
+                if full in self.mods and vars(p)[seg] is self.mods[full]:
+                    self.attrs.append((p, seg, vars(p)[seg]))
+                    delattr(p, seg)
+                else:
+                    self.problems.append("%s has an attribute %r that is not the sub-module" % (pkg, seg))
+        return self
+
+    def __exit__(self, *a):
+        for p, seg, o in self.attrs:
+            setattr(p, seg, o)
+        sys.modules.update(self.mods)
+        return False
+
+
 def subtrees(raw, path=()):
     if raw["k"] == "dict":
         for d, key in ((0, "cause"), (1, "ctx")):
@@ -450,10 +498,19 @@ def setup(opts):
     for rel in ("lg_unloaded_0.py", "lg_unloaded_1.py", "lg_unloaded_pkg/__init__.py", "lg_unloaded_pkg/inner.py"):
         with open(os.path.join(d, rel), "w") as f:
             f.write(body)
+    # a package that IS loaded whose sub-modules (files next to it) are NOT: a walk `lg_loaded_pkg` -> `inner` -> ... must
+    # stop at the first segment; `LazyThing` is exported through __all__ but bound nowhere
+    for rel in ("lg_loaded_pkg/deep",):
+        os.makedirs(os.path.join(d, rel), exist_ok=True)
+    for rel in ("lg_loaded_pkg/__init__.py", "lg_loaded_pkg/inner.py", "lg_loaded_pkg/other.py",
+                "lg_loaded_pkg/deep/__init__.py", "lg_loaded_pkg/deep/leaf.py"):
+        with open(os.path.join(d, rel), "w") as f:
+            f.write(body + ('\n__all__ = ["Boom", "Thing", "fn", "LazyThing"]\n' if rel == "lg_loaded_pkg/__init__.py" else ""))
     sys.path.insert(0, d)
     importlib.invalidate_caches()
     for m in UNLOADED:
         sys.modules.pop(m, None)
+    importlib.import_module(LOADED_PKG)
     # warm-up: let pydantic / taskiq do their lazy work outside any observation window
     warm = [{"exc_type": "ValueError", "exc_module": "builtins", "exc_message": ["w"],
              "exc_cause": {"exc_type": "X", "exc_module": None, "exc_message": []}},
@@ -485,6 +542,28 @@ def special(case):
                     "result_module": type(r).__module__}
         finally:
             sys.modules.pop("lg_lazy", None)
+    if what == "foreign_lazy_package":
+        # loaded packages that are not taskiq's and resolve missing attributes themselves (PEP 562 __getattr__ or a module
+        # subclass): does a stored name walking into one of their unloaded sub-modules make *them* import it?
+        out = []
+        for t in lazy_view():
+            if t["owner"] != "other" or not t["hook"] or len(out) >= 4:
+                continue
+            for u in t["unloaded"][:8]:
+                before = set(sys.modules)
+                try:
+                    r = exception_to_python({"exc_type": u["name"] + ".NoSuchError", "exc_module": t["pkg"], "exc_message": []})
+                    how = type(r).__name__
+                except Exception as e:
+                    how = "raised " + type(e).__name__
+                new = sorted(forget(sorted(set(sys.modules) - before)))
+                if new:
+                    out.append({"stored": "%s:%s.NoSuchError" % (t["pkg"], u["name"]), "outcome": how,
+                                "imported_by_the_package_hook": new[:6], "imported_count": len(new)})
+                    break
+        return {"special": what, "packages_with_their_own_attribute_hook": [t["pkg"] for t in lazy_view() if t["hook"]],
+                "observed": out, "note": "attribute lookup on somebody else's module is Python's getattr (scope decision); "
+                                         "such packages are not used as lazy-walk targets unless they are taskiq's own"}
     if what == "forged_class":
         class Forged:
             __bases__ = (BaseException,)
@@ -631,7 +710,85 @@ def discover(case):
     return {"special": "discover", "modules": out}
 
 
+# --------------------------------------------------------------------------- loaded packages, unloaded sub-modules
+def top_names(origin, limit=5):
+    """names a module file binds at top level, read from the source (nothing is imported)"""
+    try:
+        with open(origin, "rb") as f:
+            tree = ast.parse(f.read())
+    except Exception:  # noqa: BLE001 - no source, no names
+        return []
+    out = []
+    for n in tree.body:
+        if isinstance(n, (ast.ClassDef, ast.FunctionDef, ast.AsyncFunctionDef)):
+            out.append(n.name)
+        elif isinstance(n, ast.Assign):
+            out += [t.id for t in n.targets if isinstance(t, ast.Name)]
+    return [x for x in out if not x.startswith("__")][:limit]
+
+
+def disk_children(fullname, search, depth, keep=None):
+    """sub-modules of a package as the files on its search path say (pkgutil.iter_modules: no import)"""
+    out = []
+    for info in sorted(pkgutil.iter_modules(list(search)), key=lambda i: i.name):
+        if keep is not None and not keep(info.name):
+            continue
+        full = fullname + "." + info.name
+        try:
+            spec = info.module_finder.find_spec(full)
+        except Exception:  # noqa: BLE001
+            spec = None
+        locs = list(getattr(spec, "submodule_search_locations", None) or [])
+        out.append(dict(name=info.name, ispkg=bool(info.ispkg), names=top_names(getattr(spec, "origin", None)),
+                        children=disk_children(full, locs, depth - 1) if info.ispkg and depth > 0 and locs else []))
+    return out
+
+
+def reach(mn, m):
+    """[module key, attribute walk] pairs that arrive at the loaded package m: itself, and every loaded ancestor whose
+    attributes lead to it"""
+    parts, out = mn.split("."), [[mn, []]]
+    for i in range(len(parts) - 1, 0, -1):
+        cur = sys.modules.get(".".join(parts[:i]))
+        for seg in parts[i:]:
+            cur = vars(cur).get(seg) if isinstance(cur, types.ModuleType) else None
+        if cur is m:
+            out.append([".".join(parts[:i]), parts[i:]])
+    return out
+
+
+def lazy_view(cap_other=4):
+    """for every package in sys.modules: the sub-modules that exist on disk, are not in sys.modules and are not bound on
+    the package, and the names its __all__ promises but its namespace does not bind"""
+    out = []
+    for mn in sorted(sys.modules):
+        m = sys.modules[mn]
+        path = getattr(m, "__path__", None) if isinstance(m, types.ModuleType) else None
+        if path is None or mn == "__main__":
+            continue
+        owner = "taskiq" if mn == "taskiq" or mn.startswith("taskiq.") else "planted" if mn.startswith("lg_") else "other"
+        budget = [cap_other if owner == "other" else 40]
+
+        def keep(name, mn=mn, m=m, budget=budget):
+            if mn + "." + name in sys.modules or name in vars(m) or budget[0] <= 0:
+                return False
+            budget[0] -= 1
+            return True
+        try:
+            unl = disk_children(mn, list(path), 1, keep)
+        except Exception:  # noqa: BLE001 - a path entry that cannot be listed
+            continue
+        allv = vars(m).get("__all__")
+        decl = [n for n in allv if isinstance(n, str) and n not in vars(m)][:6] if isinstance(allv, (list, tuple)) else []
+        if unl or decl:
+            out.append(dict(pkg=mn, owner=owner, hook="__getattr__" in vars(m) or type(m) is not types.ModuleType,
+                            roots=reach(mn, m), unloaded=unl, declared=decl))
+    return out
+
+
 def run_case(case, opts):
+    if case.get("special") == "lazy_view":
+        return {"special": "lazy_view", "packages": lazy_view()}
     if case.get("special") == "discover":
         return discover(case)
     if "special" in case:
@@ -639,10 +796,16 @@ def run_case(case, opts):
     env = get_env(case["env"])
     if env.problems:
         return {"_crash": "environment self-check failed: %r" % env.problems[:5]}
-    res, eff, newmods = window(env, case["entry"], case["raw"], case.get("argtab", ()))
-    nested = []
-    if case.get("nested", True):
-        for path, sub in list(subtrees(case["raw"]))[:14]:
-            r2, _e2, m2 = window(env, case["entry"], sub, case.get("argtab", ()))
-            nested.append([list(path), r2, m2])
-    return {"res": res, "eff": eff, "newmods": newmods, "nested": nested}
+    with Unloaded(case.get("lazy", ())) as un:
+        if un.problems:
+            return {"_crash": "a sub-module that must not be loaded cannot be unloaded: %r" % un.problems[:3]}
+        res, eff, newmods = window(env, case["entry"], case["raw"], case.get("argtab", ()))
+        nested = []
+        if case.get("nested", True):
+            for path, sub in list(subtrees(case["raw"]))[:14]:
+                r2, _e2, m2 = window(env, case["entry"], sub, case.get("argtab", ()))
+                nested.append([list(path), r2, m2])
+    obs = {"res": res, "eff": eff, "newmods": newmods, "nested": nested}
+    if un.pre:
+        obs["lazy_pre"] = un.pre
+    return obs
